@@ -52,6 +52,46 @@ where
     }
 }
 
+/// `init_file` for a logger that is not the global one: the initial
+/// configuration is applied through `handle` instead of `init_config`, then
+/// the reloader is started exactly as `init_file` does.
+#[cfg(feature = "verif_hooks")]
+pub fn verif_init_file_with_handle<P>(
+    path: P,
+    deserializers: Deserializers,
+    handle: Handle,
+    with_mtime: bool,
+) -> anyhow::Result<()>
+where
+    P: AsRef<Path>,
+{
+    let path = path.as_ref().to_path_buf();
+    let format = Format::from_path(&path)?;
+    let source = read_config(&path)?;
+    let modified = if with_mtime {
+        fs::metadata(&path).and_then(|m| m.modified()).ok()
+    } else {
+        None
+    };
+    let config = format.parse(&source)?;
+
+    let refresh_rate = config.refresh_rate();
+    let config = deserialize(&config, &deserializers);
+    handle.set_config(config);
+    if let Some(refresh_rate) = refresh_rate {
+        ConfigReloader::start(
+            path,
+            format,
+            refresh_rate,
+            source,
+            modified,
+            deserializers,
+            handle,
+        );
+    }
+    Ok(())
+}
+
 /// Loads a log4rs logger configuration from a file.
 ///
 /// Unlike `init_file`, this function does not initialize the logger; it only
@@ -185,6 +225,8 @@ impl ConfigReloader {
             handle,
         };
 
+        #[cfg(feature = "verif_hooks")]
+        crate::verif::will_spawn("reloader");
         thread::Builder::new()
             .name("log4rs refresh".to_owned())
             .spawn(move || reloader.run(rate))
@@ -192,7 +234,14 @@ impl ConfigReloader {
     }
 
     fn run(&mut self, mut rate: Duration) {
+        #[cfg(feature = "verif_hooks")]
+        let _verif_guard = crate::verif::thread_enter("reloader");
         loop {
+            #[cfg(feature = "verif_hooks")]
+            if !crate::verif::sleep(rate) {
+                thread::sleep(rate);
+            }
+            #[cfg(not(feature = "verif_hooks"))]
             thread::sleep(rate);
 
             match self.run_once(rate) {
